@@ -6,6 +6,7 @@ import socket
 from stix2.equivalence.pattern.compare.comparison import (
     object_path_to_raw_values,
 )
+from stix2.patterns import StringConstant
 
 # Values we can use as wildcards in path patterns
 _ANY_IDX = object()
@@ -107,6 +108,11 @@ def windows_reg_key(comp_expr):
         comp_expr: A _ComparisonExpression object whose type is
             windows-registry-key
     """
+    if not isinstance(comp_expr.rhs, StringConstant):
+        # Only a string constant can hold a registry key; leave anything else
+        # (numbers, booleans, set literals, ...) alone.
+        return
+
     if _path_is(comp_expr.lhs, ("key",)) \
             or _path_is(comp_expr.lhs, ("values", _ANY_IDX, "name")):
         comp_expr.rhs.value = comp_expr.rhs.value.lower()
@@ -127,6 +133,11 @@ def ipv4_addr(comp_expr):
     Args:
         comp_expr: A _ComparisonExpression object whose type is ipv4-addr.
     """
+    if not isinstance(comp_expr.rhs, StringConstant):
+        # Only a string constant can hold an address; leave anything else
+        # (numbers, booleans, set literals, ...) alone.
+        return
+
     if _path_is(comp_expr.lhs, ("value",)):
         value = comp_expr.rhs.value
         slash_idx = value.find("/")
@@ -188,6 +199,11 @@ def ipv6_addr(comp_expr):
     Args:
         comp_expr: A _ComparisonExpression object whose type is ipv6-addr.
     """
+    if not isinstance(comp_expr.rhs, StringConstant):
+        # Only a string constant can hold an address; leave anything else
+        # (numbers, booleans, set literals, ...) alone.
+        return
+
     if _path_is(comp_expr.lhs, ("value",)):
         value = comp_expr.rhs.value
         slash_idx = value.find("/")
